@@ -1,10 +1,83 @@
 import Ldap3V.Driver.Util
+import Ldap3V.Model.Envelope
 namespace Ldap3V.Driver
 open Ldap3V
 
-/-- line-protocol handler for the `Envelope` family of commands; `none` = not mine -/
+def showKnown : Option ControlType → String
+  | none => "-"
+  | some .pagedResults => "PagedResults"
+  | some .postReadResp => "PostReadResp"
+  | some .preReadResp => "PreReadResp"
+  | some .syncDone => "SyncDone"
+  | some .syncState => "SyncState"
+  | some .manageDsaIt => "ManageDsaIt"
+  | some .matchedValues => "MatchedValues"
+
+def showRaw (r : RawControl) : String :=
+  s!"{hexOf r.ctype}:{if r.crit then 1 else 0}:{match r.val with | some v => hexOf v | none => "none"}"
+
+def showCtrl (c : Control) : String := s!"{showRaw c.raw}:{showKnown c.known}"
+
+def showCtrls (cs : List Control) : String := "[" ++ ",".intercalate (cs.map showCtrl) ++ "]"
+
+def showDec : DecOut → String
+  | .needMore => "needmore"
+  | .decodeError => "error"
+  | .frame id op cs n => s!"frame {id} {showTlv op} {showCtrls cs} consumed={n}"
+
+/-- `oidhex:crit:valhex|none` -/
+def parseRaw (s : String) : Option RawControl :=
+  match s.splitOn ":" with
+  | [o, c, v] =>
+    match unhex o with
+    | some oid =>
+      if v == "none" then some ⟨oid, c == "1", none⟩
+      else (unhex v).map fun b => ⟨oid, c == "1", some b⟩
+    | none => none
+  | _ => none
+
+/-- `none` | `[]` | `[raw,raw]` -/
+def parseRawList (s : String) : Option (Option (List RawControl)) :=
+  if s == "none" then some none
+  else if s == "[]" then some (some [])
+  else
+    let inner := ((s.drop 1).dropEnd 1).toString
+    let parts := inner.splitOn ","
+    (parts.mapM parseRaw).map some
+
+def showFraming (f : Framing) : String :=
+  let fr := f.frames.map fun (id, op, cs) => s!"{id}:{showTlv op}:{showCtrls cs}"
+  s!"frames=[{";".intercalate fr}] buf={f.buf.length} err={if f.errored then 1 else 0}"
+
 def handleEnvelope (cmd arg : String) : Option String :=
   match cmd with
+  | "env.dec" => some (match unhex arg with
+      | some bs => showDec (decodeInner bs)
+      | none => "bad-request")
+  | "env.enc" =>
+    -- env.enc <id> <ctrls> <tlv…>
+    some (match arg.splitOn " " with
+      | id :: cs :: rest =>
+        match parseInt id, parseRawList cs, parseTlv (" ".intercalate rest) with
+        | some id, some cs, some t => hexOf (encodeMsg id (Tag.structure t) cs)
+        | _, _, _ => "bad-request"
+      | _ => "bad-request")
+  | "ctls.parse" => some (match parseTlv arg with
+      | some t => (match parseControls t with
+        | some cs => showCtrls cs
+        | none => "none")
+      | none => "bad-request")
+  | "frame.feed" =>
+    -- frame.feed <hex chunk> … [eof]
+    some (
+      let toks := arg.splitOn " " |>.filter (· != "")
+      let eof := toks.getLast? == some "eof"
+      let chunks := if eof then toks.dropLast else toks
+      match chunks.mapM unhex with
+      | some cs =>
+        let f := Framing.feedAll {} cs
+        showFraming (if eof then f.eof else f)
+      | none => "bad-request")
   | _ => none
 
 end Ldap3V.Driver
